@@ -169,8 +169,10 @@ func BuildReceiverStreamID(source, target history.ClusterShardID) string {
 
 // BuildForwarderStreamID returns the canonical forwarder stream ID.
 // Note: forwarder uses server-first ordering in the ID.
+// Both shards are part of it: several initiator shards can be served by the same server shard at the same time, and a
+// stream that ends must not take the table entry of another one with it.
 func BuildForwarderStreamID(source, target history.ClusterShardID) string {
-	return fmt.Sprintf("fwd-snd-%s", ClusterShardIDtoShortString(source))
+	return fmt.Sprintf("fwd-snd-%s-%s", ClusterShardIDtoShortString(source), ClusterShardIDtoShortString(target))
 }
 
 // BuildIntraProxySenderStreamID returns the server-side intra-proxy stream ID for a peer and shard pair.
